@@ -38,11 +38,12 @@ func init() {
 	}
 	harness.Register(&harness.Engine{
 		Name: "iso", Property: "C05", Level: "exploration", Main: isoMain, MaxSimTime: 10 * time.Minute,
-		Rule: "per run the tape draws the configuration (Immutable, CaseSensitive, StrictRouting, UnescapePath), 1-4 connection tasks and up to 40 requests of 12 kinds (parameterised / optional / wildcard routes, locals and response headers set by middleware, query/header/cookie/form/JSON binding, redirects with flash messages and old input, flash display with valid / truncated / forged cookies, failing and panicking handlers, malformed requests); " +
+		Rule: "per run the tape draws the configuration (Immutable, CaseSensitive, StrictRouting, UnescapePath), 1-4 connection tasks and up to 40 (thorough: 70) requests of about 25 kinds (parameterised / optional / wildcard routes, locals and response headers set by middleware, query/header/cookie/form/JSON binding incl. auto-handling, failing binds and unbalanced-bracket queries, redirects with flash messages and old input, flash display with valid / truncated / forged / missing-field cookies, view bindings rendered through a template file, SendFile, failing and panicking handlers, wrong and unknown methods, malformed requests; proxy headers, ProxyHeader / IP validation); " +
 			"each request is first served by a fresh application with emptied pools (reference), then the whole history runs concurrently on one application with handlers yielding in the middle; distinct = hash of (configuration, sequence of (connection, kind)); non-trivial = a pooled context was reused by a request of another kind",
 		Assumptions: []string{
 			"the observation vector is: method, path, original URL, route, params, query, headers, cookies, host, IP, scheme, base URL, body, form value, locals and response headers visible at middleware entry, flash messages / old input, bound structs, Accepts, and the response (status, headers without Date, body)",
-			"view bindings are not observed (no template engine in the sandboxed run)",
+			"view bindings are observed through Render with a template file (no template engine is configured)",
+			"streamed request bodies (StreamRequestBody) cannot be exercised: the connection layer of fasthttp is stubbed",
 		},
 		Components: comps,
 	})
